@@ -18,11 +18,14 @@ import (
 
 	"verif/mc/enum"
 	"verif/mc/sched"
+	"verif/mc/vatomic"
 	"verif/mc/vsync"
 
 	"go.opentelemetry.io/otel/attribute"
 	otelmetric "go.opentelemetry.io/otel/metric"
+	"go.opentelemetry.io/otel/sdk/instrumentation"
 	"go.opentelemetry.io/otel/sdk/metric"
+	"go.opentelemetry.io/otel/sdk/metric/metricdata"
 	"go.opentelemetry.io/otel/sdk/resource"
 )
 
@@ -34,6 +37,13 @@ func (r *c18cReg) Unregister(prometheus.Collector) bool   { return true }
 
 // scrape drives Collect directly (what Registry.Gather does in a goroutine) and renders the result.
 func c18cScrape(c prometheus.Collector) ([]string, error) {
+	out, _, err := c18cScrapeH(c)
+	return out, err
+}
+
+// c18cScrapeH also returns, per metric family name, the HELP texts of its series in this scrape.
+func c18cScrapeH(c prometheus.Collector) ([]string, map[string][]string, error) {
+	helps := map[string][]string{}
 	ch := make(chan prometheus.Metric, 256)
 	c.Collect(ch)
 	sched.Close(ch)
@@ -45,7 +55,7 @@ func c18cScrape(c prometheus.Collector) ([]string, error) {
 		}
 		var d dto.Metric
 		if err := m.Write(&d); err != nil {
-			return nil, err
+			return nil, nil, err
 		}
 		var ls []string
 		for _, l := range d.Label {
@@ -63,9 +73,44 @@ func c18cScrape(c prometheus.Collector) ([]string, error) {
 		name := desc[strings.Index(desc, "fqName: \"")+9:]
 		name = name[:strings.Index(name, "\"")]
 		out = append(out, fmt.Sprintf("%s{%s} %s", name, strings.Join(ls, ","), v))
+		help := desc[strings.Index(desc, "help: \"")+7:]
+		help = help[:strings.Index(help, "\"")]
+		known := false
+		for _, h := range helps[name] {
+			known = known || h == help
+		}
+		if !known {
+			helps[name] = append(helps[name], help)
+		}
 	}
 	sort.Strings(out)
-	return out, nil
+	return out, helps, nil
+}
+
+// c18cOneScope is an external producer of one scope with one counter.
+type c18cOneScope struct{}
+
+func (c18cOneScope) Produce(context.Context) ([]metricdata.ScopeMetrics, error) {
+	return []metricdata.ScopeMetrics{{Scope: instrumentation.Scope{Name: "m2"}, Metrics: []metricdata.Metrics{{Name: "req2",
+		Data: metricdata.Sum[int64]{Temporality: metricdata.CumulativeTemporality, IsMonotonic: true, DataPoints: []metricdata.DataPoint[int64]{{Value: 5}}}}}}}, nil
+}
+
+// c18cProducer is an external metric.Producer with two scopes that both define the counter "dup",
+// with different descriptions; every other call lists the scopes in the opposite order (as the
+// SDK's own map-ordered scope list may).
+type c18cProducer struct{ calls vatomic.Int32 }
+
+func (p *c18cProducer) Produce(context.Context) ([]metricdata.ScopeMetrics, error) {
+	n := p.calls.Add(1)
+	mk := func(scope, desc string, v int64) metricdata.ScopeMetrics {
+		return metricdata.ScopeMetrics{Scope: instrumentation.Scope{Name: scope}, Metrics: []metricdata.Metrics{{Name: "dup", Description: desc,
+			Data: metricdata.Sum[int64]{Temporality: metricdata.CumulativeTemporality, IsMonotonic: true, DataPoints: []metricdata.DataPoint[int64]{{Value: v}}}}}}
+	}
+	a, b := mk("pa", "from A", 10), mk("pb", "from B", 20)
+	if n%2 == 1 {
+		return []metricdata.ScopeMetrics{a, b}, nil
+	}
+	return []metricdata.ScopeMetrics{b, a}, nil
 }
 
 type c18cScn struct {
@@ -78,7 +123,20 @@ func c18cBody(sc c18cScn, res *string) func(x *sched.Exec) {
 	return func(x *sched.Exec) {
 		ctx := context.Background()
 		reg := &c18cReg{}
-		exp, err := New(append(sc.opts(), WithRegisterer(reg))...)
+		withShutdown := false
+		for _, t := range sc.threads {
+			for _, op := range t {
+				withShutdown = withShutdown || op == "Shutdown"
+			}
+		}
+		opts := append(sc.opts(), WithRegisterer(reg))
+		if withShutdown {
+			// a second scope: the scrape has per-scope work left when the provider is shut down under
+			// it. It comes from an external producer, which the reader lists after the SDK's own scope
+			// (two SDK scopes would be listed in map order, different from run to run).
+			opts = append(opts, WithProducer(c18cOneScope{}))
+		}
+		exp, err := New(opts...)
 		if err != nil {
 			x.Fail("C18|exporter-construction", "New: %v", err)
 			return
@@ -87,20 +145,10 @@ func c18cBody(sc c18cScn, res *string) func(x *sched.Exec) {
 		mp := metric.NewMeterProvider(metric.WithReader(exp), metric.WithResource(rs))
 		ctr, _ := mp.Meter("m", otelmetric.WithInstrumentationVersion("v1")).Int64Counter("req")
 		ctr.Add(ctx, 1, otelmetric.WithAttributes(attribute.String("k", "a")))
-		withShutdown := false
-		for _, t := range sc.threads {
-			for _, op := range t {
-				withShutdown = withShutdown || op == "Shutdown"
-			}
-		}
-		if withShutdown {
-			// a second scope: the scrape has per-scope work left when the provider is shut down under it
-			c2, _ := mp.Meter("m2").Int64Counter("req2")
-			c2.Add(ctx, 5)
-		}
 		type out struct {
-			scrapes [][]string
-			err     error
+			scrapes  [][]string
+			err      error
+			twoHelps string
 		}
 		outs := make([]out, len(sc.threads))
 		var wg vsync.WaitGroup
@@ -116,6 +164,22 @@ func c18cBody(sc c18cScn, res *string) func(x *sched.Exec) {
 							outs[ti].err = err
 						}
 						outs[ti].scrapes = append(outs[ti].scrapes, s)
+					case "ScrapeH": // a scrape judged on its own: one HELP per family, whatever other scrapes are doing
+						s, helps, err := c18cScrapeH(reg.c)
+						if err != nil {
+							outs[ti].err = err
+						}
+						outs[ti].scrapes = append(outs[ti].scrapes, s)
+						var fams []string
+						for f := range helps {
+							fams = append(fams, f)
+						}
+						sort.Strings(fams)
+						for _, f := range fams {
+							if len(helps[f]) > 1 {
+								outs[ti].twoHelps = fmt.Sprintf("family %s is exposed with HELP %q in one scrape", f, helps[f])
+							}
+						}
 					case "Add":
 						ctr.Add(ctx, 2, otelmetric.WithAttributes(attribute.String("k", "a")))
 					case "Shutdown":
@@ -138,6 +202,9 @@ func c18cBody(sc c18cScn, res *string) func(x *sched.Exec) {
 		for _, o := range outs {
 			if o.err != nil {
 				x.Fail("C18|scrape-error|concurrent", "metric could not be written: %v", o.err)
+			}
+			if o.twoHelps != "" {
+				x.Fail("C18|help-conflict-within-one-scrape|concurrent first scrapes", "two scopes define the family with different descriptions and two first scrapes meet them in opposite orders: %s (a registry refuses such a scrape)", o.twoHelps)
 			}
 			for _, s := range o.scrapes {
 				if withShutdown {
@@ -182,6 +249,7 @@ func c18cScenarios() []c18cScn {
 		{"K3-constlabels-2scrapes-each", constLabels, [][]string{{"Scrape", "Scrape"}, {"Scrape"}}},
 		{"K5-scrape-vs-provider-shutdown", func() []Option { return nil }, [][]string{{"Scrape"}, {"Shutdown"}}},
 		{"K6-constlabels-scrape-scrape-shutdown", constLabels, [][]string{{"Scrape"}, {"Scrape"}, {"Shutdown"}}},
+		{"K7-first-scrapes-two-descriptions-opposite-scope-order", func() []Option { return []Option{WithProducer(&c18cProducer{})} }, [][]string{{"ScrapeH"}, {"ScrapeH"}}},
 		{"K4-noscope-notarget", func() []Option { return []Option{WithoutScopeInfo(), WithoutTargetInfo()} }, [][]string{{"Scrape"}, {"Scrape"}, {"Add"}}},
 	}
 }
